@@ -39,6 +39,7 @@ THEOREMS = [
     "Klong.C07.grad_pure_values",
     "Klong.C07.next_evaluation_sees_same",
     "Klong.C07.pinned_not_pure",
+    "Klong.C07.pinned_pure_on_success_partial",
 ]
 
 UNIT = 1e-6
@@ -291,19 +292,10 @@ def run_real(case):
             if isinstance(v, KGSym) and str(v) == nm:
                 continue        # the interpreter's convention: an undefined name evaluates (and is bound) to itself
             problems.append((f"c07:{ftag}:new-variable", "unbound", f"{nm}={s1[key][0]}", f"`{expr}` created variable {nm}"))
-    # final store in the model's terms: name -> initial ref (by identity) or 'new'
-    ids = {id(o): i for i, o in enumerate(objs)}
-    ref0 = dict((n, r) for n, r in case["store"])
+    # final store in the model's terms: value and kind of every initial name
     for n in names:
         key = (0, n)
-        if key in s1:
-            v = s1[key][2]
-            r0 = ref0[n]
-            # (small Python ints are interned: equal initial cells may be one object)
-            ref = r0 if isinstance(r0, int) and v is objs[r0] else ids.get(id(v), "new")
-            final.append(f"{n}:{ref}:{view(v)}")
-        else:
-            final.append(f"{n}:?")
+        final.append(f"{n}:{view(s1[key][2])}" if key in s1 else f"{n}:?")
     heap_after = [view(o) for o in objs]
     newsyms = sorted(nm for (lvl, nm) in s1 if (lvl, nm) not in s0)
     after_eval = neutral() if param_ok else None
@@ -543,6 +535,8 @@ def run_case(ctx, drv, case):
     first = next((o for o in case["script"][:r["calls"]] if o != "s"), "none")
     ctx.bump("first-deviation:" + {"r": "raise", "v": "non-scalar", "p": "plain-number", "u": "unknown-name",
                                    "none": "none"}[first])
+    if r["identity_changed"]:
+        ctx.bump("rebound-to-an-equal-but-different-object")
     if case.get("fn_unknown"):
         ctx.bump("unknown-function-operand")
     if UNKP in case["params"]:
@@ -590,6 +584,8 @@ def run(ctx):
         # 1. the Lean witness on the code under check and on the model
         r = run_case(ctx, drv, dict(WITNESS))
         ctx.extra["pinned_witness_reproduces_on_code"] = bool(r["problems"])
+        ctx.extra["model_variants"] = ("repaired (np.array copy, fix a9bfa81): grad_pure proved in full; pinned "
+                                       "(np.asarray alias): pinned_pure_on_success_partial + pinned_not_pure")
         ctx.sample(dict(WITNESS))
         if drv is not None:
             mp = fields(drv.ask(model_line(WITNESS, "pinned")))
@@ -609,7 +605,7 @@ def run(ctx):
         for case in literal_cases(backends):
             run_case(ctx, drv, case)
         # 4. random cases
-        n = 1500 if quick else 60000
+        n = 1500 if quick else 40000
         for i in range(n):
             case = random_case(ctx.rng, backends, thorough)
             run_case(ctx, drv, case)
